@@ -76,7 +76,7 @@ POOL = [
     num("0", "0", 4, 0, 0), num("-0", "-0", 4, 0, 0), num("1", "1", 4, 0, 1), num("-1", "-1", 4, 1, 1),
     num("0.5", "0.5", 3), num("2", "2", 4, 0, 2), num("3", "3", 4, 0, 3), num("-3", "-3", 4, 1, 3), num("4", "4", 4, 0, 4),
     num("-4", "-4", 4, 1, 4), num("2^53", "9007199254740992", 4, 0, 2 ** 53), num("2^63", "9223372036854775808", 4, 0, 2 ** 63),
-    num("-2^63", "-9223372036854775808", 4, 1, 2 ** 63), num("1e300", "1e300", 4, 0, 10 ** 300), num("inf", "1/0", 1), num("-inf", "-1/0", 2),
+    num("-2^63", "-9223372036854775808", 4, 1, 2 ** 63), num("2^64", "18446744073709551616", 4, 0, 2 ** 64), num("inf", "1/0", 1), num("-inf", "-1/0", 2),
     num("nan", "0/0", 0), num("-2.5", "-2.5", 3),
     Val("str:empty", 'var $ = "";', (3, 0, 0, 0, 0), "str", 0),
     Val("str:a", 'var $ = "a";', (3, 0, 0, 0, 0), "str", 1),
@@ -364,9 +364,12 @@ def run_probe_groups(binary, probes, group, quarantine=True, extra_prelude="", t
 
 
 def classify_lines(lines):
-    if not lines:
-        return ("missing", [], "")
-    return (lines[0], lines[1:], "")
+    """the snippet prints ok / <class T> ... or err / <class E> / message (a probe of print() prints its argument first)"""
+    lines = lines or []
+    for i, l in enumerate(lines):
+        if l in ("ok", "err"):
+            return (l, lines[i + 1:], "")
+    return ("missing", lines, "")
 
 
 RK_CLASS = {"Nil": "<class Nil>", "Bool": "<class Bool>", "Num": "<class Num>", "String": "<class String>",
@@ -442,7 +445,7 @@ PLAIN = SCALARS + ["[]", "[1, 2, 3]", "(1, 2)", "()", "{}", '{1: 2, "k": nil}', 
                    "|| 1", "|x| x", "PC.new()", "Error.new(1)"]
 VARS = ["v_nil", "v_vec", "v_cyc", "v_map", "v_mcyc", "v_str", "v_tup", "v_utup", "v_rng", "v_inst", "v_err", "v_cls", "v_fn0", "v_fn1", "v_fn2",
         "v_nat", "v_bn", "v_bc", "v_it", "v_itd", "v_sit", "v_fnew", "v_fsus", "v_fdone", "v_mod", "v_stop", "v_mi", "v_der"]
-PROG_PRELUDE = PRELUDE + """#[derive(PC)] class PD { fn m(self) { return super.m() + 1; } fn bad(self) { return super.nope(); } fn gs(self) { return super.m; } fn gbad(self) { return super.zip; } }
+PROG_PRELUDE = PRELUDE + """#[constructor(new), derive(PC)] class PD { fn m(self) { return super.m() + 1; } fn bad(self) { return super.nope(); } fn gs(self) { return super.m; } fn gbad(self) { return super.zip; } }
 #[constructor(mk), derive(Error)] class MyErr {}
 class It3 { #[constructor] fn new(self) { self.i = 0; } fn iter(self) { return self; } fn next(self) { self.i = self.i + 1; if self.i > 3 { return [].iter().next(); } return self.i; } }
 fn rec(n) { return rec(n + 1) + 1; }
@@ -644,8 +647,10 @@ def wire_of_tree(fns):
     return "|".join(parts)
 
 
-SITES_PREAMBLE = """From YV Require Import VerifierRun NativesModel Verifier Show.
+SITES_PREAMBLE = """From Coq Require Import Bool.
+From YV Require Import VerifierRun NativesModel Verifier Show.
 Open Scope string_scope.
+Open Scope bool_scope.
 Definition c02_sites (w : string) : string :=
   match parse_program w with
   | None => "PARSE-ERROR"%string
